@@ -90,21 +90,27 @@ theorem hasSpine_appendAll (d : Nat) (F ts : Forest) (h : HasSpine d F) : HasSpi
 
 /-! ### one step of the element loop with the `mpt_node_append` handler -/
 
-theorem loop_step_pre (b b1 : Build) (prev : Nat) (s s1 : St) (src src1 : Src) (code : Int) (p : Path)
-    (heq : parseFormatPre cfgB s src = (code, s1, src1)) (hpos : 0 < code)
+theorem loop_step (k : Kind) (cfg : Cfg) (b b1 : Build) (prev : Nat) (s s1 : St) (src src1 : Src) (code : Int)
+    (p : Path) (heq : next k cfg prev s src = (code, s1, src1)) (hpos : 0 < code)
     (hsave : nodeAppend b s1 prev code = some b1) (hafter : afterSave code s1.path = .ok p) :
-    loop .pre cfgB nodeAppend b prev s src =
-      loop .pre cfgB nodeAppend b1 s1.curr { s1 with path := p, curr := 0, valid := 0 } src1 := by
-  have hn : next .pre cfgB prev s src = (code, s1, src1) := by simp only [next, heq]
-  rw [loop_pos _ _ _ _ _ _ _ (by rw [hn]; exact hpos)]
-  simp only [hn, hsave, hafter]
+    loop k cfg nodeAppend b prev s src =
+      loop k cfg nodeAppend b1 s1.curr { s1 with path := p, curr := 0, valid := 0 } src1 := by
+  rw [loop_pos _ _ _ _ _ _ _ (by rw [heq]; exact hpos)]
+  simp only [heq, hsave, hafter]
 
-theorem loop_stop_pre (b : Build) (prev : Nat) (s s1 : St) (src src1 : Src)
-    (heq : parseFormatPre cfgB s src = (0, s1, src1)) :
-    (loop .pre cfgB nodeAppend b prev s src).code = 0 ∧ (loop .pre cfgB nodeAppend b prev s src).ctx = b := by
-  have hn : next .pre cfgB prev s src = (0, s1, src1) := by simp only [next, heq]
-  rw [loop_nonpos _ _ _ _ _ _ _ (by rw [hn]; exact Int.lt_irrefl 0)]
-  simp [hn]
+theorem loop_stop (k : Kind) (cfg : Cfg) (b : Build) (prev : Nat) (s s1 : St) (src src1 : Src)
+    (heq : next k cfg prev s src = (0, s1, src1)) :
+    (loop k cfg nodeAppend b prev s src).code = 0 ∧ (loop k cfg nodeAppend b prev s src).ctx = b := by
+  rw [loop_nonpos _ _ _ _ _ _ _ (by rw [heq]; exact Int.lt_irrefl 0)]
+  simp [heq]
+
+/-- removing the last element of a clean path leaves a clean path -/
+theorem del_clean (e : List (List UInt8)) (m : List UInt8) (p : Path) (h : Clean (e ++ [m]) p) :
+    ∃ p', afterSave 2 p = .ok p' ∧ Clean e p' := by
+  obtain ⟨h1, _, _⟩ := h
+  have hne : p.elems.isEmpty = false := by rw [h1]; simp
+  refine ⟨_, by simp [afterSave, Flag.sectEnd, Path.del, hne]; rfl, ?_, rfl, rfl⟩
+  simp [h1]
 
 /-- where the cursor of the tree under construction is, relative to the parent at depth `dep`:
     `first` = the parent was just opened (the next node becomes its first child), otherwise the
@@ -174,58 +180,12 @@ theorem afterSave_inv (e : List (List UInt8)) (l : List UInt8) (k : Bool) (fi : 
     afterSave 1 (Pth e l k fi) = .ok (Pth e [] false fi) := by
   simp [afterSave, Flag.sectEnd]
 
-section induction
-variable (d : Decor) (hd : d.ok)
-include hd
-
-/-- claim for one written tree -/
-def TreeClaim (t : Tree) : Prop :=
-  ∀ (k dep : Nat) (e : List (List UInt8)) (b : Build) (prev : Nat) (s : St) (src : Src) (J rest : List UInt8)
-    (first : Bool),
-    treeOk t = true → Ready e s src J (renderTree d k t ++ rest) → Mode first dep b prev → HasSpine dep b.forest →
-    ∃ (b' : Build) (prev' : Nat) (s' : St) (src' : Src) (J' : List UInt8),
-      Ready e s' src' J' rest ∧ Mode false dep b' prev' ∧ b'.forest = appendAt dep b.forest (normTree t)
-      ∧ HasSpine dep b'.forest
-      ∧ loop .pre cfgB nodeAppend b prev s src = loop .pre cfgB nodeAppend b' prev' s' src'
-
-/-- claim for a written forest -/
-def ForestClaim (f : Forest) : Prop :=
-  ∀ (k dep : Nat) (e : List (List UInt8)) (b : Build) (prev : Nat) (s : St) (src : Src) (J rest : List UInt8)
-    (first : Bool),
-    nodesOk f = true → Ready e s src J (renderBrace d k f ++ rest) → Mode first dep b prev → HasSpine dep b.forest →
-    ∃ (b' : Build) (prev' : Nat) (s' : St) (src' : Src) (J' : List UInt8),
-      Ready e s' src' J' rest ∧ Mode (first && f.isEmpty) dep b' prev'
-      ∧ b'.forest = appendAll dep b.forest (norm f) ∧ HasSpine dep b'.forest
-      ∧ loop .pre cfgB nodeAppend b prev s src = loop .pre cfgB nodeAppend b' prev' s' src'
-
-omit hd in
-theorem forestClaim_nil : ForestClaim d [] := by
-  intro k dep e b prev s src J rest first _ hr hm hs
-  refine ⟨b, prev, s, src, J, ?_, by simpa using hm, ?_, hs, rfl⟩
-  · simpa [renderBrace] using hr
-  · simp [norm, appendAll]
-
-omit hd in
-theorem forestClaim_cons (t : Tree) (ts : Forest) (ht : TreeClaim d t) (hts : ForestClaim d ts) :
-    ForestClaim d (t :: ts) := by
-  intro k dep e b prev s src J rest first hok hr hm hs
-  have hok' : treeOk t = true ∧ nodesOk ts = true := by simpa [nodesOk] using hok
-  have hr1 : Ready e s src J (renderTree d k t ++ (renderBrace d (k + treeLines t) ts ++ rest)) := by
-    have := hr.src
-    exact ⟨hr.clean, hr.valid, hr.junk, by rw [this]; simp [renderBrace, List.append_assoc]⟩
-  obtain ⟨b1, prev1, s1, src1, J1, hr2, hm1, hf1, hs1, heq1⟩ := ht k dep e b prev s src J _ first hok'.1 hr1 hm hs
-  obtain ⟨b2, prev2, s2, src2, J2, hr3, hm2, hf2, hs2, heq2⟩ :=
-    hts (k + treeLines t) dep e b1 prev1 s1 src1 J1 rest false hok'.2 hr2 hm1 hs1
-  refine ⟨b2, prev2, s2, src2, J2, hr3, by simpa using hm2, ?_, hs2, heq1.trans heq2⟩
-  rw [hf2, hf1]; simp [norm, appendAll]
-
 /-- an optional value the writer can express -/
 abbrev OptValOk (ov : Option (List UInt8)) : Prop :=
   match ov with
   | some x => x.isEmpty = true ∨ valueOk x = true
   | none => True
 
-omit hd in
 /-- the value a leaf is read back with -/
 theorem normTree_leaf (n : List UInt8) (v : Option (List UInt8)) :
     normTree (.node n v []) = .node n (if (valueOf v).isEmpty then none else some (valueOf v)) [] := by
@@ -236,23 +196,101 @@ theorem normTree_leaf (n : List UInt8) (v : Option (List UInt8)) :
     · simp [normTree, norm, valueOf, hx]
     · simp [normTree, norm, valueOf, hx]
 
-theorem treeClaim_leaf (n : List UInt8) (v : Option (List UInt8)) : TreeClaim d (.node n v []) := by
-  intro k dep e b prev s src J rest first hok hr hm hs
+/-- what the induction needs from a nested section style: the three kinds of lines and the end of the text,
+    for the element function `next k cfg` (any previous-operation code) -/
+structure NestStyle (k : Kind) (cfg : Cfg) (openL : LineDecor → List UInt8 → List UInt8) : Prop where
+  optLine : ∀ (e : List (List UInt8)) (s : St) (src : Src) (prev : Nat) (junk n pre post tr rest : List UInt8)
+    (ov : Option (List UInt8)),
+    Clean e s.path → s.valid = 0 → visSkip false junk = some false → nameOk n = true →
+    pre.all isBlank = true → post.all isBlank = true → trailOk tr = true → OptValOk ov →
+    src.rest = junk ++ n ++ pre ++ 61 :: (post ++ valueText ov ++ tr ++ 10 :: rest) →
+    ∃ s' src', next k cfg prev s src = ((if (valueOf ov).isEmpty then 3 else 7 : Int), s', src')
+      ∧ (∃ l kk fi' ln', s' = Stt (e ++ [n]) l kk fi' (valueOf ov).length (Flag.option ||| Flag.name) ln'
+          ∧ l.take (valueOf ov).length = valueOf ov)
+      ∧ src'.rest = rest
+  openLine : ∀ (e : List (List UInt8)) (s : St) (src : Src) (prev : Nat) (J : List UInt8) (dl : LineDecor)
+    (n rest : List UInt8),
+    Clean e s.path → s.valid = 0 → visSkip false J = some false → dl.ok = true → nameOk n = true →
+    src.rest = J ++ openL dl n ++ rest →
+    ∃ s' src' J', next k cfg prev s src = (1, s', src')
+      ∧ (∃ l fi' v' ln', s' = Stt (e ++ [n]) l false fi' v' (Flag.section_ ||| Flag.name) ln')
+      ∧ visSkip false J' = some false ∧ src'.rest = J' ++ rest
+  closeLine : ∀ (e : List (List UInt8)) (m : List UInt8) (s : St) (src : Src) (prev : Nat) (junk rest : List UInt8),
+    Clean (e ++ [m]) s.path → s.valid = 0 → visSkip false junk = some false →
+    src.rest = junk ++ 125 :: rest →
+    ∃ s1 src1 p', next k cfg prev s src = (2, s1, src1) ∧ s1.curr = Flag.sectEnd
+      ∧ afterSave 2 s1.path = .ok p' ∧ Clean e p' ∧ src1.rest = rest
+  eof : ∀ (s : St) (src : Src) (prev : Nat) (junk : List UInt8) (b : Bool),
+    Clean [] s.path → visSkip false junk = some b → src.rest = junk →
+    ∃ s' src', next k cfg prev s src = (0, s', src')
+
+section induction
+variable {k : Kind} {cfg : Cfg} {openL : LineDecor → List UInt8 → List UInt8} (hst : NestStyle k cfg openL)
+variable (d : Decor) (hd : d.ok)
+include hst hd
+
+/-- claim for one written tree -/
+def TreeClaim (t : Tree) : Prop :=
+  ∀ (kk dep : Nat) (e : List (List UInt8)) (b : Build) (prev : Nat) (s : St) (src : Src) (J rest : List UInt8)
+    (first : Bool),
+    treeOk t = true → Ready e s src J (renderTree openL d kk t ++ rest) → Mode first dep b prev →
+    HasSpine dep b.forest →
+    ∃ (b' : Build) (prev' : Nat) (s' : St) (src' : Src) (J' : List UInt8),
+      Ready e s' src' J' rest ∧ Mode false dep b' prev' ∧ b'.forest = appendAt dep b.forest (normTree t)
+      ∧ HasSpine dep b'.forest
+      ∧ loop k cfg nodeAppend b prev s src = loop k cfg nodeAppend b' prev' s' src'
+
+/-- claim for a written forest -/
+def ForestClaim (f : Forest) : Prop :=
+  ∀ (kk dep : Nat) (e : List (List UInt8)) (b : Build) (prev : Nat) (s : St) (src : Src) (J rest : List UInt8)
+    (first : Bool),
+    nodesOk f = true → Ready e s src J (renderNest openL d kk f ++ rest) → Mode first dep b prev →
+    HasSpine dep b.forest →
+    ∃ (b' : Build) (prev' : Nat) (s' : St) (src' : Src) (J' : List UInt8),
+      Ready e s' src' J' rest ∧ Mode (first && f.isEmpty) dep b' prev'
+      ∧ b'.forest = appendAll dep b.forest (norm f) ∧ HasSpine dep b'.forest
+      ∧ loop k cfg nodeAppend b prev s src = loop k cfg nodeAppend b' prev' s' src'
+
+omit hst hd in
+theorem forestClaim_nil : ForestClaim (k := k) (cfg := cfg) (openL := openL) d [] := by
+  intro kk dep e b prev s src J rest first _ hr hm hs
+  refine ⟨b, prev, s, src, J, ?_, by simpa using hm, ?_, hs, rfl⟩
+  · simpa [renderNest] using hr
+  · simp [norm, appendAll]
+
+omit hst hd in
+theorem forestClaim_cons (t : Tree) (ts : Forest) (ht : TreeClaim (k := k) (cfg := cfg) (openL := openL) d t)
+    (hts : ForestClaim (k := k) (cfg := cfg) (openL := openL) d ts) :
+    ForestClaim (k := k) (cfg := cfg) (openL := openL) d (t :: ts) := by
+  intro kk dep e b prev s src J rest first hok hr hm hs
+  have hok' : treeOk t = true ∧ nodesOk ts = true := by simpa [nodesOk] using hok
+  have hr1 : Ready e s src J (renderTree openL d kk t ++ (renderNest openL d (kk + treeLines t) ts ++ rest)) := by
+    have := hr.src
+    exact ⟨hr.clean, hr.valid, hr.junk, by rw [this]; simp [renderNest, List.append_assoc]⟩
+  obtain ⟨b1, prev1, s1, src1, J1, hr2, hm1, hf1, hs1, heq1⟩ := ht kk dep e b prev s src J _ first hok'.1 hr1 hm hs
+  obtain ⟨b2, prev2, s2, src2, J2, hr3, hm2, hf2, hs2, heq2⟩ :=
+    hts (kk + treeLines t) dep e b1 prev1 s1 src1 J1 rest false hok'.2 hr2 hm1 hs1
+  refine ⟨b2, prev2, s2, src2, J2, hr3, by simpa using hm2, ?_, hs2, heq1.trans heq2⟩
+  rw [hf2, hf1]; simp [norm, appendAll]
+
+theorem treeClaim_leaf (n : List UInt8) (v : Option (List UInt8)) :
+    TreeClaim (k := k) (cfg := cfg) (openL := openL) d (.node n v []) := by
+  intro kk dep e b prev s src J rest first hok hr hm hs
   have hok' : nameOk n = true ∧ OptValOk v := by
     simp only [treeOk, List.isEmpty_nil, ↓reduceIte, Bool.and_eq_true] at hok
     refine ⟨hok.1, ?_⟩
     cases v with
     | none => trivial
     | some x => simpa [OptValOk] using hok.2
-  have hdk := hd k
+  have hdk := hd kk
   obtain ⟨hpre, hpost, htr, hht⟩ := LineDecor.ok_parts _ hdk
-  have hjunk := visSkip_lead J (d k) hr.junk hdk
-  have hsrc : src.rest = (J ++ (d k).before ++ (d k).indent) ++ n ++ (d k).pre ++
-      61 :: ((d k).post ++ valueText v ++ (d k).trail ++ 10 :: rest) := by
+  have hjunk := visSkip_lead J (d kk) hr.junk hdk
+  have hsrc : src.rest = (J ++ (d kk).before ++ (d kk).indent) ++ n ++ (d kk).pre ++
+      61 :: ((d kk).post ++ valueText v ++ (d kk).trail ++ 10 :: rest) := by
     rw [hr.src]
     cases v <;> simp [renderTree, optionLine, valueText, List.append_assoc]
-  obtain ⟨s1, src1, heq, ⟨l, kk, fi', ln', hs1, htake⟩, hrest⟩ :=
-    pre_option_line e s src _ n (d k).pre (d k).post (d k).trail rest v hr.clean hr.valid hjunk hok'.1 hpre hpost
+  obtain ⟨s1, src1, heq, ⟨l, kq, fi', ln', hs1, htake⟩, hrest⟩ :=
+    hst.optLine e s src prev _ n (d kk).pre (d kk).post (d kk).trail rest v hr.clean hr.valid hjunk hok'.1 hpre hpost
       htr hok'.2 hsrc
   have hlen : n.length < 65535 := by
     have := hok'.1
@@ -265,8 +303,8 @@ theorem treeClaim_leaf (n : List UInt8) (v : Option (List UInt8)) : TreeClaim d 
     simp only [hz, ↓reduceIte] at heq
     have hna := nodeAppend_new first dep b prev s1 3 e n none hm (Or.inr (Or.inl ⟨rfl, rfl⟩))
       (by rw [hs1]; rfl) hlen
-    obtain ⟨fi2, hafter⟩ := afterSave_del e n l kk fi' 3 (Or.inr (Or.inl rfl))
-    have hstep := loop_step_pre b _ prev s s1 src src1 3 _ heq (by decide) hna (by rw [hs1]; exact hafter)
+    obtain ⟨fi2, hafter⟩ := afterSave_del e n l kq fi' 3 (Or.inr (Or.inl rfl))
+    have hstep := loop_step k cfg b _ prev s s1 src src1 3 _ heq (by decide) hna (by rw [hs1]; exact hafter)
     refine ⟨_, s1.curr, _, src1, [], ⟨clean_pth e fi2, rfl, rfl, by simpa using hrest⟩, ?_, ?_, ?_, hstep⟩
     · rw [hs1]; simp [Mode, Flag.sectEnd, Flag.option, Flag.name]
     · simp only [normTree_leaf, hz, ↓reduceIte]
@@ -274,16 +312,17 @@ theorem treeClaim_leaf (n : List UInt8) (v : Option (List UInt8)) : TreeClaim d 
   · simp only [hz, Bool.false_eq_true, ↓reduceIte] at heq
     have hna := nodeAppend_new first dep b prev s1 7 e n (some s1.name) hm (Or.inr (Or.inr ⟨rfl, rfl⟩))
       (by rw [hs1]; rfl) hlen
-    obtain ⟨fi2, hafter⟩ := afterSave_del e n l kk fi' 7 (Or.inr (Or.inr rfl))
-    have hstep := loop_step_pre b _ prev s s1 src src1 7 _ heq (by decide) hna (by rw [hs1]; exact hafter)
+    obtain ⟨fi2, hafter⟩ := afterSave_del e n l kq fi' 7 (Or.inr (Or.inr rfl))
+    have hstep := loop_step k cfg b _ prev s s1 src src1 7 _ heq (by decide) hna (by rw [hs1]; exact hafter)
     refine ⟨_, s1.curr, _, src1, [], ⟨clean_pth e fi2, rfl, rfl, by simpa using hrest⟩, ?_, ?_, ?_, hstep⟩
     · rw [hs1]; simp [Mode, Flag.sectEnd, Flag.option, Flag.name]
     · simp only [normTree_leaf, hz, Bool.false_eq_true, ↓reduceIte, hname]
     · exact hasSpine_appendAt dep _ _ hs
 
 theorem treeClaim_section (n : List UInt8) (v : Option (List UInt8)) (cs : Forest) (hne : cs ≠ [])
-    (hcs : ForestClaim d cs) : TreeClaim d (.node n v cs) := by
-  intro k dep e b prev s src J rest first hok hr hm hs
+    (hcs : ForestClaim (k := k) (cfg := cfg) (openL := openL) d cs) :
+    TreeClaim (k := k) (cfg := cfg) (openL := openL) d (.node n v cs) := by
+  intro kk dep e b prev s src J rest first hok hr hm hs
   have hce : cs.isEmpty = false := by simpa using hne
   have hok' : nameOk n = true ∧ v = none ∧ nodesOk cs = true := by
     simp only [treeOk, hce, Bool.false_eq_true, ↓reduceIte, Bool.and_eq_true, Option.isNone_iff_eq_none] at hok
@@ -295,27 +334,24 @@ theorem treeClaim_section (n : List UInt8) (v : Option (List UInt8)) (cs : Fores
     simp only [nameOk, Bool.and_eq_true, decide_eq_true_eq] at this
     exact this.2
   -- the section start line
-  have hdk := hd k
-  obtain ⟨hpre, _, htr, hht⟩ := LineDecor.ok_parts _ hdk
-  have hjunk := visSkip_lead J (d k) hr.junk hdk
-  let k2 := k + 1 + braceLines cs
-  have hsrc : src.rest = (J ++ (d k).before ++ (d k).indent) ++ n ++ (d k).pre ++
-      123 :: ((headTrail (d k) ++ [10]) ++ (renderBrace d (k + 1) cs ++ (closeLine (d k2) ++ rest))) := by
+  have hdk := hd kk
+  let k2 := kk + 1 + braceLines cs
+  have hsrc : src.rest = J ++ openL (d kk) n ++ (renderNest openL d (kk + 1) cs ++ (closeLine (d k2) ++ rest)) := by
     rw [hr.src]
-    simp [renderTree, hce, openLine, List.append_assoc, k2]
-  obtain ⟨s1, src1, heq, ⟨l, fi', v', ln', hs1⟩, hrest⟩ :=
-    pre_open_line e s src _ n (d k).pre _ hr.clean hr.valid hjunk hn hpre hsrc
+    simp [renderTree, hce, List.append_assoc, k2]
+  obtain ⟨s1, src1, J1, heq, ⟨l, fi', v', ln', hs1⟩, hJ1, hrest⟩ :=
+    hst.openLine e s src prev J (d kk) n _ hr.clean hr.valid hr.junk hdk hn hsrc
   have hna := nodeAppend_new first dep b prev s1 1 e n none hm (Or.inl ⟨rfl, rfl⟩) (by rw [hs1]; rfl) hlen
-  have hstep := loop_step_pre b _ prev s s1 src src1 1 _ heq (by decide) hna
+  have hstep := loop_step k cfg b _ prev s s1 src src1 1 _ heq (by decide) hna
     (by rw [hs1]; exact afterSave_inv _ _ _ _)
   -- the children
   have hmode1 : Mode true (dep + 1) { forest := appendAt dep b.forest (.node n none []), depth := dep + 1 } s1.curr := by
     rw [hs1]; simp [Mode, Flag.sectEnd, Flag.section_, Flag.name]
   have hready1 : Ready (e ++ [n]) { s1 with path := Pth (e ++ [n]) [] false fi', curr := 0, valid := 0 } src1
-      (headTrail (d k) ++ [10]) (renderBrace d (k + 1) cs ++ (closeLine (d k2) ++ rest)) :=
-    ⟨clean_pth _ _, rfl, visSkip_headTrail _ hht, hrest⟩
+      J1 (renderNest openL d (kk + 1) cs ++ (closeLine (d k2) ++ rest)) :=
+    ⟨clean_pth _ _, rfl, hJ1, hrest⟩
   obtain ⟨b2, prev2, s2, src2, J2, hr2, hm2, hf2, hs2, heq2⟩ :=
-    hcs (k + 1) (dep + 1) (e ++ [n]) _ s1.curr _ src1 _ _ true hcok hready1 hmode1
+    hcs (kk + 1) (dep + 1) (e ++ [n]) _ s1.curr _ src1 _ _ true hcok hready1 hmode1
       (hasSpine_appendAt_succ dep b.forest n none [] hs)
   simp only [hce, Bool.and_false] at hm2
   -- the section end line
@@ -324,15 +360,13 @@ theorem treeClaim_section (n : List UInt8) (v : Option (List UInt8)) (cs : Fores
   have hjunk2 := visSkip_lead J2 (d k2) hr2.junk hdk2
   have hsrc2 : src2.rest = (J2 ++ (d k2).before ++ (d k2).indent) ++ 125 :: ((headTrail (d k2) ++ [10]) ++ rest) := by
     rw [hr2.src]; simp [closeLine, List.append_assoc]
-  obtain ⟨ln3, src3, heq3, hrest3⟩ := pre_close_line (e ++ [n]) s2 src2 _ _ hr2.clean hr2.valid hjunk2 hsrc2
-  have hna3 := nodeAppend_end dep b2 prev2 (Stt (e ++ [n]) [125] false s2.path.first 0 Flag.sectEnd ln3) hm2
-  obtain ⟨fi3, hafter3⟩ := afterSave_del e n [125] false s2.path.first 2 (Or.inl rfl)
-  have hstep3 := loop_step_pre b2 _ prev2 s2 _ src2 src3 2 _ heq3 (by decide) hna3 hafter3
-  refine ⟨{ b2 with depth := dep + 1 }, Flag.sectEnd,
-    { (Stt (e ++ [n]) [125] false s2.path.first 0 Flag.sectEnd ln3) with
-      path := Pth e [] false fi3, curr := 0, valid := 0 }, src3, headTrail (d k2) ++ [10],
-    ⟨clean_pth e fi3, rfl, visSkip_headTrail _ hht2, hrest3⟩, ?_, ?_, ?_, ?_⟩
-  · simp [Mode, Flag.sectEnd]
+  obtain ⟨s3, src3, p3, heq3, hc3, hafter3, hclean3, hrest3⟩ :=
+    hst.closeLine e n s2 src2 prev2 _ _ hr2.clean hr2.valid hjunk2 hsrc2
+  have hna3 := nodeAppend_end dep b2 prev2 s3 hm2
+  have hstep3 := loop_step k cfg b2 _ prev2 s2 s3 src2 src3 2 p3 heq3 (by decide) hna3 hafter3
+  refine ⟨{ b2 with depth := dep + 1 }, s3.curr, { s3 with path := p3, curr := 0, valid := 0 }, src3,
+    headTrail (d k2) ++ [10], ⟨hclean3, rfl, visSkip_headTrail _ hht2, hrest3⟩, ?_, ?_, ?_, ?_⟩
+  · rw [hc3]; simp [Mode, Flag.sectEnd]
   · simp only [hf2]
     rw [appendAll_child dep b.forest n none (norm cs) hs]
     simp [normTree]
@@ -342,33 +376,68 @@ theorem treeClaim_section (n : List UInt8) (v : Option (List UInt8)) (cs : Fores
   · rw [hstep, heq2, hstep3]
 
 /-- both claims hold for every tree and forest -/
-theorem forestClaim_all : ∀ f, ForestClaim d f := by
+theorem forestClaim_all : ∀ f, ForestClaim (k := k) (cfg := cfg) (openL := openL) d f := by
   intro f
-  refine @Tree.rec_1 (TreeClaim d) (ForestClaim d) ?_ (forestClaim_nil d) ?_ f
+  refine @Tree.rec_1 (TreeClaim (k := k) (cfg := cfg) (openL := openL) d)
+    (ForestClaim (k := k) (cfg := cfg) (openL := openL) d) ?_ (forestClaim_nil d) ?_ f
   · intro n v cs ih
     by_cases hne : cs = []
-    · subst hne; exact treeClaim_leaf d hd n v
-    · exact treeClaim_section d hd n v cs hne ih
+    · subst hne; exact treeClaim_leaf hst d hd n v
+    · exact treeClaim_section hst d hd n v cs hne ih
   · intro t ts iht ihts
     exact forestClaim_cons d t ts iht ihts
 
+/-- the element loop on a whole text in a nested style, from any clean parser state -/
+theorem loop_nest (f : Forest) (hok : nodesOk f = true) (s : St) (prev : Nat)
+    (hprev : prev ≠ 0 ∧ prev &&& Flag.sectEnd = 0)
+    (hclean : Clean [] s.path) (hv : s.valid = 0) (tail : List UInt8) (b : Bool) (htail : visSkip false tail = some b) :
+    (loop k cfg nodeAppend ({} : Build) prev s { rest := renderNest openL d 0 f ++ tail }).code = 0
+    ∧ (loop k cfg nodeAppend ({} : Build) prev s { rest := renderNest openL d 0 f ++ tail }).ctx.forest = norm f := by
+  obtain ⟨b', prev', s', src', J', hr, _, hf, _, heq⟩ :=
+    forestClaim_all hst d hd f 0 0 [] ({} : Build) prev s { rest := renderNest openL d 0 f ++ tail } [] tail true hok
+      ⟨hclean, hv, rfl, by simp⟩ (by simp [Mode, hprev.1, hprev.2]) trivial
+  obtain ⟨s2, src2, heof⟩ := hst.eof s' src' prev' (J' ++ tail) b hr.clean
+    (visSkip_append _ _ _ _ _ hr.junk htail) hr.src
+  obtain ⟨hcode, hctx⟩ := loop_stop k cfg b' prev' s' s2 src' src2 heof
+  rw [heq]
+  refine ⟨hcode, ?_⟩
+  rw [hctx, hf]
+  simp [appendAll_zero]
+
 end induction
+
+/-! ### brace style: `mpt_parse_format_pre`, default format -/
+
+theorem nestStyle_B : NestStyle .pre cfgB openLine where
+  optLine := by
+    intro e s src prev junk n pre post tr rest ov h1 h2 h3 h4 h5 h6 h7 h8 h9
+    simp only [next]
+    exact pre_option_line e s src junk n pre post tr rest ov h1 h2 h3 h4 h5 h6 h7 h8 h9
+  openLine := by
+    intro e s src prev J dl n rest hclean hv hJ hdl hn hsrc
+    obtain ⟨hpre, _, _, hht⟩ := LineDecor.ok_parts _ hdl
+    have hjunk := visSkip_lead J dl hJ hdl
+    have hsrc' : src.rest = (J ++ dl.before ++ dl.indent) ++ n ++ dl.pre ++ 123 :: ((headTrail dl ++ [10]) ++ rest) := by
+      rw [hsrc]; simp [openLine, List.append_assoc]
+    obtain ⟨s1, src1, heq, hs1, hrest⟩ := pre_open_line e s src _ n dl.pre _ hclean hv hjunk hn hpre hsrc'
+    exact ⟨s1, src1, headTrail dl ++ [10], by simp only [next]; exact heq, hs1, visSkip_headTrail _ hht, hrest⟩
+  closeLine := by
+    intro e m s src prev junk rest hclean hv hj hsrc
+    obtain ⟨ln3, src3, heq3, hrest3⟩ := pre_close_line (e ++ [m]) s src junk rest hclean hv hj hsrc
+    obtain ⟨fi3, hafter3⟩ := afterSave_del e m [125] false s.path.first 2 (Or.inl rfl)
+    exact ⟨_, src3, _, by simp only [next]; exact heq3, rfl, hafter3, clean_pth e fi3, hrest3⟩
+  eof := by
+    intro s src prev junk b hclean hj hsrc
+    obtain ⟨s2, src2, h⟩ := pre_eof s src junk b hclean hj hsrc
+    exact ⟨s2, src2, by simp only [next]; exact h⟩
 
 /-- the element loop on a whole text in brace style, from any clean parser state -/
 theorem loop_brace (d : Decor) (hd : d.ok) (f : Forest) (hok : nodesOk f = true) (s : St)
     (hclean : Clean [] s.path) (hv : s.valid = 0) :
     (loop .pre cfgB nodeAppend ({} : Build) Flag.section_ s { rest := renderBrace d 0 f }).code = 0
     ∧ (loop .pre cfgB nodeAppend ({} : Build) Flag.section_ s { rest := renderBrace d 0 f }).ctx.forest = norm f := by
-  obtain ⟨b', prev', s', src', J', hr, _, hf, _, heq⟩ :=
-    forestClaim_all d hd f 0 0 [] ({} : Build) Flag.section_ s { rest := renderBrace d 0 f } [] [] true hok
-      ⟨hclean, hv, rfl, by simp⟩ (by simp [Mode, Flag.section_, Flag.sectEnd]) trivial
-  have hsrc : src'.rest = J' := by simpa using hr.src
-  obtain ⟨s2, src2, heof⟩ := pre_eof s' src' J' false hr.clean hr.junk hsrc
-  obtain ⟨hcode, hctx⟩ := loop_stop_pre b' prev' s' s2 src' src2 heof
-  rw [heq]
-  refine ⟨hcode, ?_⟩
-  rw [hctx, hf]
-  simp [appendAll_zero]
+  have := loop_nest nestStyle_B d hd f hok s Flag.section_ (by decide) hclean hv [] false rfl
+  simpa using this
 
 /-- **brace style is read back**: `mpt_parse_node` on an empty target, default format, all name flags,
     applied to the text of an admissible forest with any valid decoration, succeeds with the normal
